@@ -315,6 +315,10 @@ def generate(unit_path):
             header = rsscan.strip_comments(src.text[s:b]).strip()
             header, counts = rewrites.apply_all(header, item_kind=('trait' if d.name == 'trait' else None), header_only=True)
             block = (d.name, (b + 1, e - 1), d.arg)
+            if i < len(ds) and ds[i].name == 'header':
+                # declared instantiation of a generic impl (R10): the emitted header replaces the source header
+                header = ds[i].arg
+                i += 1
             em.emit(header + ' {', kind='block')
             if d.payload and any(x.strip() for x in d.payload):
                 em.emit('\n'.join(d.payload), kind='verbatim')
